@@ -27,13 +27,14 @@ META = {
 
 ALLOWED_TRACE = {"NonThreadedExecutor.eval_node", "CallStack.pop", "CallStack.rollback",
                  "CellsImpl.set_value_from_key", "TraceManager.clear_with_descs",
-                 "TraceManager.clear_obj", "TraceManager.clear_attr_referrers"}
+                 "TraceManager.clear_obj", "TraceManager.clear_attr_referrers",
+                 "CellsImpl.__init__"}      # nodes of the values installed at construction
 ALLOWED_REF = {"CallStack.pop", "TraceManager.clear_with_descs", "TraceManager.clear_obj",
                "TraceManager.clear_attr_referrers"}
 
 
 @rule("C08.R1", "C08", "PAIR", "data writes are paired with graph nodes; data deleted only for removed nodes",
-      min_instances=6)
+      min_instances=6, also=("C06",))
 def r1(ctx, R):
     """`data[k] = v` only in CellsImpl._store_value; its callers add the node (pop on the
     evaluation path, add_node in set_value_from_key); `del data[k]` only in on_clear_trace;
@@ -61,6 +62,27 @@ def r1(ctx, R):
                 if f.short != "CellsImpl.__init__":
                     R.bad(f, c, "cells data mutated in bulk outside __init__")
     R.need(n >= 3, "expected >=3 data write sites, found %d" % n)
+    ini = ctx.func("CellsImpl.__init__")
+    bulk = [c for c in q.calls(ini, name="update") if call_recv(c) == "self.data"]
+    R.inst("CellsImpl.__init__: values installed at construction (copy, new_cells(data=)) get their nodes")
+    if bulk:
+        okn = False
+        for c, k, nm in graph_ops(ini, ("add_node",)):
+            lp = enclosing_for(ini, c)
+            if k != "trace" or lp is None or not isinstance(lp.target, ast.Name):
+                continue
+            it = q.origin(ini, lp.iter)
+            if isinstance(it, ast.Call) and isinstance(it.func, ast.Name) and it.func.id in ("list", "tuple", "set", "sorted") and it.args:
+                it = q.origin(ini, it.args[0])
+            if isinstance(it, ast.Call) and isinstance(it.func, ast.Attribute) and it.func.attr == "keys":
+                it = it.func.value
+            if norm(it) in ("self.input_keys", "self.data", "data") and [norm(a) for a in c.args] == ["(self, %s)" % lp.target.id] \
+                    and q.path_between(ini, bulk[0], c) and not lp.orelse \
+                    and not any(isinstance(x, (ast.Break, ast.Continue, ast.If)) for b in lp.body for x in ast.walk(b)):
+                okn = True
+        if not okn:
+            R.bad(ini, bulk[0], "values installed at construction have no graph node: clear_at() on a copied input does "
+                                "nothing and check_sanity fails", stmt="data.update without add_node")
     callers = []
     for f in ctx.repo.all_funcs():
         for c in q.calls(f, name="_store_value"):
